@@ -847,8 +847,11 @@ def rule_indices_of_tree(ctx, prog, rule="R20"):
        Ok(i): i == n−1 → None, else (i, i+1);  Err(j): j == 0 or j == n → None, else (j−1, j)
     for every (variant, index, n) with n ≤ 8 — complete for conditions that compare the index with 0, n, n−1.
     Together with std's binary_search contract on strictly increasing edges (R11) this is `edge_i <= v < edge_{i+1}`."""
-    from .paths import enumerate_paths, evaluate, CannotEval, NotLoopFree
+    from .paths import enumerate_paths, evaluate, CannotEval, NotLoopFree, resolve_phi
     b = prog.find("histogram::bins::Edges::<A>::indices_of")
+    from .facts import inline_calls
+    from .rules_zones import helper_filter
+    b = inline_calls(prog, b, helper_filter(prog))       # the decision may live in a private helper taking the search result
     bs = [(bb, t) for bb, t in b.calls() if callee_name(t) == "binary_search"]
     ok = len(bs) == 1
     if ok:
@@ -900,11 +903,12 @@ def rule_indices_of_tree(ctx, prog, rule="R20"):
             for i in rng:
                 env = {"variant": variant, "n": n, ("idx_Ok" if variant == 0 else "idx_Err"): i}
                 taken = []
-                for decisions, rd, asserts in paths:
+                for pinfo in paths:
+                    decisions, rd, asserts = pinfo
                     feasible = True
                     try:
                         for (_bb, de, val) in decisions:
-                            v = evaluate(de, env, sym)
+                            v = evaluate(resolve_phi(b, de, pinfo.blocks), env, sym)
                             if isinstance(val, tuple) and val[0] == "not":
                                 if v in val[1]:
                                     feasible = False
@@ -920,17 +924,17 @@ def rule_indices_of_tree(ctx, prog, rule="R20"):
                             unrec = str(ex)
                             feasible = False
                     if feasible:
-                        taken.append((decisions, rd, asserts))
+                        taken.append((decisions, rd, asserts, pinfo.blocks))
                 cases += 1
                 if len(taken) != 1:
                     bad.append("variant=%s idx=%d n=%d: %d feasible paths" % ("Ok" if variant == 0 else "Err", i, n, len(taken)))
                     continue
-                decisions, rd, asserts = taken[0]
+                decisions, rd, asserts, pblocks = taken[0]
                 try:
                     for (_bb, ce, expected) in asserts:
-                        if bool(evaluate(ce, env, sym)) != bool(expected):
+                        if bool(evaluate(resolve_phi(b, ce, pblocks), env, sym)) != bool(expected):
                             bad.append("variant=%s idx=%d n=%d: arithmetic assert fails on the taken path" % ("Ok" if variant == 0 else "Err", i, n))
-                    got = evaluate(b.def_expr(0, rd), env, sym)
+                    got = evaluate(resolve_phi(b, b.def_expr(0, rd), pblocks), env, sym)
                 except CannotEval as ex:
                     unrec = str(ex)
                     continue
